@@ -2,6 +2,10 @@
 from .suites import pure, diff, walk, sync, proto
 
 PROPS = {
+    "C08": {
+        "suites": [sync.SchedSuite],
+        "assumptions": ["'no data race' is a statement about the Go memory model: not expressible in the model; the overlap detector decides 'no two SendMsg/RecvMsg in flight'"],
+    },
     "C03": {
         "suites": [proto.Hostile, pure.ValidatorSuite],
         "assumptions": ["fsutil runs in a chroot'ed child process; everything in the jail outside dest is snapshotted before/after (mode, owner, inode, times, bytes, xattrs)"],
